@@ -294,8 +294,8 @@ def finish(mod, pid, tier, seed, results, wall, verbose=False):
                 with open(path, "w") as f:
                     json.dump({"property": pid, "obligation": r["key"], **v}, f, indent=1, default=str)
                 lines.append("VIOLATION property=%s replay=%s" % (pid, path))
-        if rc == EXIT_OK:
-            rc = EXIT_VIOLATION
+        # a replayed violation is definitive, whatever else stayed inconclusive
+        rc = EXIT_VIOLATION
     write_evidence(mod, pid, tier, seed, results, wall, nviol, sorted(seen_known), harness)
     for ln in lines:
         print(ln)
